@@ -136,8 +136,19 @@ def _worker(args):
         for case in mod.cases(rng, tier, shard, nshards, phase):
             try:
                 r = mod.run_case(vk, case)
-            except Exception as e:  # harness bug: never a verdict
-                return {"error": f"harness exception in {modname}: {traceback.format_exc()[-1500:]} case={jdump(case)[:800]}"}
+            except Exception as e:
+                # The harness could not interpret what the implementation returned for this case (an unexpected type,
+                # a missing attribute, an undeclared name ...). On the unchanged tree this does not happen (every check is
+                # soaked over many seeds before it is registered); on a changed tree it means the observable output no
+                # longer has the shape the property talks about, so it is reported as a violation with the case as
+                # replay instead of ending the run without a verdict. VERIF_STRICT_HARNESS=1 restores the old behaviour.
+                if os.environ.get("VERIF_STRICT_HARNESS"):
+                    return {"error": f"harness exception in {modname}: {traceback.format_exc()[-1500:]} case={jdump(case)[:800]}"}
+                r = {"req": None, "expect": None, "tags": ["uninterpretable-output"], "nontrivial": False,
+                     "monitors": [{"name": "uninterpretable-output",
+                                   "detail": traceback.format_exc()[-700:],
+                                   "failure": {"rule": str(case.get("rule", case.get("op", case.get("stream", "")))),
+                                               "kind": "uninterpretable-output", "cause": "harness-could-not-read-the-result"}}]}
             if r is not None:
                 r["case"] = case
                 out.append(r)
